@@ -212,7 +212,8 @@ def compute_attractor_candidates(
         graph_reduced, node_nfvs, child_motifs_reduced
     )
 
-    if not greedy_asp_minification:
+    if not greedy_asp_minification or len(node_nfvs) == 0:
+        # (With an empty NFVS, the retained set is empty and there is nothing to optimize.)
         candidate_states = compute_fixed_point_reduced_STG(
             pn_reduced,
             retained_set,
